@@ -1,3 +1,447 @@
-/- C10: property theorems (stub — not built yet) -/
+import RSVerif.Model.Resp
+import RSVerif.Lemmas.Resp
+/-
+C10 — RESP codec round-trips, rejects malformed input and counts bytes exactly.
+Property theorems only (helper lemmas live in RSVerif.Lemmas.Resp).
+
+Model: RSVerif.Resp (`decode` = the decoder with fixes/C10-inline-offset.patch applied, `decodePinned` = the pinned
+tree, deviation D13).  Specification: RSVerif.Spec.Resp (`enc`, `WF`, `fmtInt`).
+All statements are over ALL inputs: value trees of any depth and size, any number of keep-alive newlines, any
+following bytes, any starting offset; `offset_exact` is over every byte string, not only encoder images.
+-/
 namespace RSVerif.Properties.C10
+open RSVerif RSVerif.Spec.Resp RSVerif.Resp RSVerif.Lemmas.Resp
+
+/-! ### 0. Facts regenerated from the source on every run -/
+
+/-- `imap[n] = Itoa(n - 1024)` is looked up at `i + 1024`: the two offsets cancel; the table is not empty. -/
+theorem imap_bounds :
+    Generated.C10.imapFillOff + Generated.C10.imapLookupOff = 0 ∧ 0 ≤ Generated.C10.imapLookupOff ∧
+    Generated.C10.imapLookupOff ≤ 9223372036854775807 ∧ 0 < Generated.C10.imapLen := by decide
+
+/-- the five type bytes of resp.go are the RESP ones the specification uses -/
+theorem type_bytes :
+    Generated.C10.respTypeString = 43 ∧ Generated.C10.respTypeError = 45 ∧ Generated.C10.respTypeInt = 58 ∧
+    Generated.C10.respTypeBulkBytes = 36 ∧ Generated.C10.respTypeArray = 42 := by decide
+
+/-- `itos` (pre-rendered table inside its bounds, `strconv.FormatInt` outside) is the decimal rendering,
+for every 64-bit integer -/
+theorem itos_spec (i : Int) (h : isInt64 i) : itos i = fmtInt i :=
+  itos_eq_fmtInt i h imap_bounds.1 ⟨imap_bounds.2.1, imap_bounds.2.2.1⟩
+
+/-- the encoder emits exactly the specified wire format -/
+theorem encode_spec (v : Resp) (h : WF v = true) : encodeResp v = enc v :=
+  encodeResp_eq itos_spec v h
+
+/-! ### 1. The nesting budget of the model never matters -/
+
+theorem decode_ne_fuel (inp : Bytes) (off : Nat) : decode inp off ≠ .error .fuel :=
+  decodeRespG_ne_fuel true _ 0 inp off (by omega)
+
+theorem decodePinned_ne_fuel (inp : Bytes) (off : Nat) : decodePinned inp off ≠ .error .fuel :=
+  decodeRespG_ne_fuel false _ 0 inp off (by omega)
+
+/-- any larger budget gives the same result (the Go recursion has none) -/
+theorem decode_fuel_irrelevant (inp : Bytes) (off k : Nat) :
+    decodeRespG true (inp.length + 1 + k) 0 inp off = decode inp off :=
+  decodeRespG_fuel_irrelevant true 0 inp off k
+
+/-- the stream loop of the model (one unit of budget per value) never runs out of budget either -/
+theorem decodeStream_ne_fuel (fx : Bool) : ∀ (n : Nat) (inp : Bytes) (off : Nat), inp.length < n →
+    (decodeStream fx n inp off).2 ≠ .fuel
+  | 0, _, _, h => by omega
+  | n + 1, inp, off, h => by
+    unfold decodeStream
+    split
+    · rename_i e he
+      intro hc
+      simp at hc
+      subst hc
+      exact decodeRespG_ne_fuel fx _ 0 inp off (by omega) he
+    · rename_i v rest off' hd
+      obtain ⟨pre, e1, e2, _⟩ := decodeRespG_consumes fx _ _ _ _ _ _ _ hd
+      have : 0 < pre.length := List.length_pos_iff.mpr e2
+      have hl : rest.length < n := by rw [e1] at h; simp at h; omega
+      exact decodeStream_ne_fuel fx n rest off' hl
+
+/-! ### 2. Round trip -/
+
+/-- Decoding `\n^k ++ enc v ++ rest` gives `v`, leaves `rest`, and advances the offset by `k + |enc v|`. -/
+theorem roundtrip (v : Resp) (hwf : WF v = true) (k : Nat) (rest : Bytes) (off : Nat) :
+    decode (List.replicate k 10 ++ enc v ++ rest) off = .ok (v, rest, off + k + (enc v).length) := by
+  unfold decode
+  apply roundtripG true v hwf
+  have := depth_le v
+  simp; omega
+
+/-- the same through the encoder model (table-driven `itos`) -/
+theorem roundtrip_encoder (v : Resp) (hwf : WF v = true) (k : Nat) (rest : Bytes) (off : Nat) :
+    decode (List.replicate k 10 ++ encodeResp v ++ rest) off = .ok (v, rest, off + k + (encodeResp v).length) := by
+  rw [encode_spec v hwf]; exact roundtrip v hwf k rest off
+
+/-- RESP values round-trip through the pinned decoder too (D13 only concerns inline commands) -/
+theorem roundtrip_pinned (v : Resp) (hwf : WF v = true) (k : Nat) (rest : Bytes) (off : Nat) :
+    decodePinned (List.replicate k 10 ++ enc v ++ rest) off = .ok (v, rest, off + k + (enc v).length) := by
+  unfold decodePinned
+  apply roundtripG false v hwf
+  have := depth_le v
+  simp; omega
+
+/-- a whole array body: `n` values one after the other (what `decodeArray` loops over), at any depth -/
+theorem roundtrip_seq (l : List Resp) (hwf : WFL l = true) (d : Nat) (rest : Bytes) (off : Nat) :
+    decodeSeq (decodeRespG true (depthL l) d) l.length (encL l ++ rest) off = .ok (l, rest, off + (encL l).length) :=
+  roundtripL true l hwf _ d rest off (Nat.le_refl _)
+
+/-- A whole stream of well-formed values with interleaved keep-alive newlines (and trailing ones) decodes to exactly
+these values, with exact offsets after each, and ends with EOF. -/
+theorem roundtrip_stream : ∀ (items : List (Nat × Resp)), (∀ x ∈ items, WF x.2 = true) →
+    ∀ (k off n : Nat), items.length < n →
+    decodeStream true n (wire items ++ List.replicate k 10) off = (observed items off k, .eof)
+  | [], _, k, off, n, hn => by
+    obtain ⟨n', rfl⟩ : ∃ n', n = n' + 1 := ⟨n - 1, by simp at hn; omega⟩
+    simp only [wire, List.nil_append, decodeStream, observed]
+    rw [decodeRespG, decodeBody, decodeType_eof]
+  | (j, v) :: xs, hwf, k, off, n, hn => by
+    obtain ⟨n', rfl⟩ : ∃ n', n = n' + 1 := ⟨n - 1, by simp at hn; omega⟩
+    have hv : WF v = true := hwf (j, v) (by simp)
+    have hxs : ∀ x ∈ xs, WF x.2 = true := fun x hx => hwf x (by simp [hx])
+    have e : wire ((j, v) :: xs) ++ List.replicate k 10 = List.replicate j 10 ++ enc v ++ (wire xs ++ List.replicate k 10) := by
+      simp [wire]
+    have h1 := roundtrip v hv j (wire xs ++ List.replicate k 10) off
+    unfold decode at h1
+    have ih := roundtrip_stream xs hxs k (off + j + (enc v).length) n' (by simp at hn; omega)
+    rw [e]
+    simp only [decodeStream, h1, ih, observed]
+    simp
+
+/-- the wire format is injective on well-formed values … -/
+theorem enc_injective (v w : Resp) (hv : WF v = true) (hw : WF w = true) (h : enc v = enc w) : v = w := by
+  have h1 := roundtrip v hv 0 [] 0
+  have h2 := roundtrip w hw 0 [] 0
+  rw [h] at h1
+  rw [h1] at h2
+  simp at h2
+  exact h2
+
+/-- … in particular nil and empty are told apart, for bulk strings and for arrays -/
+theorem nil_ne_empty :
+    decode (enc (.bulk none)) 0 = .ok (.bulk none, [], 5) ∧
+    decode (enc (.bulk (some []))) 0 = .ok (.bulk (some []), [], 6) ∧
+    decode (enc (.arr none)) 0 = .ok (.arr none, [], 5) ∧
+    decode (enc (.arr (some []))) 0 = .ok (.arr (some []), [], 4) := by
+  have e : ∀ v : Resp, enc v = List.replicate 0 10 ++ enc v ++ [] := by simp
+  refine ⟨?_, ?_, ?_, ?_⟩
+  · rw [e, roundtrip _ (by decide)]; rfl
+  · rw [e, roundtrip _ (by decide)]; rfl
+  · rw [e, roundtrip _ (by decide)]; rfl
+  · rw [e, roundtrip _ (by decide)]; rfl
+
+/-- all 64-bit integers, incl. both ends -/
+example : decode (enc (.int (-9223372036854775808)) ++ enc (.int 9223372036854775807)) 7
+    = .ok (.int (-9223372036854775808), enc (.int 9223372036854775807), 7 + 0 + (enc (.int (-9223372036854775808))).length) :=
+  roundtrip (.int (-9223372036854775808)) (by decide) 0 _ 7
+
+/-- non-vacuity: a nested value with binary payloads (CR, LF, type bytes inside a bulk), nil and empty -/
+example : WF (.arr (some [.bulk (some [13, 10, 36, 42, 0, 255]), .arr (some [.int (-1024), .arr none, .bulk none]),
+    .str [97, 13, 98], .err [], .arr (some [])])) = true := by decide
+
+/-! ### 3. The offset is exactly the number of bytes consumed -/
+
+/-- For EVERY input on which the (repaired) decoder succeeds: what it consumed is a non-empty prefix of the stream,
+the rest is untouched, and the offset advanced by exactly the length of that prefix. -/
+theorem offset_exact (inp : Bytes) (off : Nat) (v : Resp) (rest : Bytes) (off' : Nat)
+    (h : decode inp off = .ok (v, rest, off')) :
+    ∃ pre, inp = pre ++ rest ∧ pre ≠ [] ∧ off' = off + pre.length := by
+  obtain ⟨pre, h1, h2, h3⟩ := decodeRespG_consumes true _ _ _ _ _ _ _ h
+  exact ⟨pre, h1, h2, by simpa using h3⟩
+
+/-- the same as a number: offset advance = bytes taken from the stream -/
+theorem offset_exact_len (inp : Bytes) (off : Nat) (v : Resp) (rest : Bytes) (off' : Nat)
+    (h : decode inp off = .ok (v, rest, off')) : off' - off = inp.length - rest.length ∧ rest.length < inp.length := by
+  obtain ⟨pre, h1, h2, h3⟩ := offset_exact inp off v rest off' h
+  have : 0 < pre.length := List.length_pos_iff.mpr h2
+  subst h1; simp; omega
+
+/-- at every nesting depth and for every budget (array elements) -/
+theorem offset_exact_nested (f d : Nat) (inp : Bytes) (off : Nat) (v : Resp) (rest : Bytes) (off' : Nat)
+    (h : decodeRespG true f d inp off = .ok (v, rest, off')) :
+    ∃ pre, inp = pre ++ rest ∧ pre ≠ [] ∧ off' = off + pre.length := by
+  obtain ⟨pre, h1, h2, h3⟩ := decodeRespG_consumes true _ _ _ _ _ _ _ h
+  exact ⟨pre, h1, h2, by simpa using h3⟩
+
+/-- along a whole stream: after every value, offset + bytes still unread = starting offset + stream length
+(keep-alive newlines and inline commands included) -/
+theorem offset_exact_stream (n : Nat) (inp : Bytes) (off : Nat) :
+    ∀ x ∈ (decodeStream true n inp off).1, x.2.1 + x.2.2 = off + inp.length :=
+  decodeStream_offsets n inp off
+
+/-- The pinned decoder (D13): the offset runs ahead by one exactly when the value is an inline command line. -/
+theorem offset_pinned (inp : Bytes) (off : Nat) (v : Resp) (rest : Bytes) (off' : Nat)
+    (h : decodePinned inp off = .ok (v, rest, off')) :
+    ∃ pre, inp = pre ++ rest ∧ pre ≠ [] ∧ off' = off + pre.length + (if startsInline inp then 1 else 0) := by
+  obtain ⟨pre, h1, h2, h3⟩ := decodeRespG_consumes false _ _ _ _ _ _ _ h
+  exact ⟨pre, h1, h2, by simpa using h3⟩
+
+/-- what is true of the pinned tree: exact for every value that starts with a RESP type byte -/
+theorem offset_exact_pinned_partial (inp : Bytes) (off : Nat) (v : Resp) (rest : Bytes) (off' : Nat)
+    (h : decodePinned inp off = .ok (v, rest, off')) (hr : startsInline inp = false) :
+    ∃ pre, inp = pre ++ rest ∧ pre ≠ [] ∧ off' = off + pre.length := by
+  obtain ⟨pre, h1, h2, h3⟩ := offset_pinned inp off v rest off' h
+  exact ⟨pre, h1, h2, by simpa [hr] using h3⟩
+
+/-- D13, kernel-checked: `PING\r\n` is 6 bytes; the pinned decoder reports offset 7, the repaired one 6. -/
+theorem counterexample_inline :
+    decodePinned [80, 73, 78, 71, 13, 10] 0 = .ok (.arr (some [.bulk (some [80, 73, 78, 71])]), [], 7) ∧
+    decode [80, 73, 78, 71, 13, 10] 0 = .ok (.arr (some [.bulk (some [80, 73, 78, 71])]), [], 6) := by
+  constructor <;> rfl
+
+/-- inline commands: split at single spaces, empty pieces dropped, every piece a bulk string; offset exact -/
+example : decode ([10, 10] ++ [83, 69, 84, 32, 97, 32, 32, 98, 32, 13, 10] ++ [58, 49, 13, 10]) 100
+    = .ok (.arr (some [.bulk (some [83, 69, 84]), .bulk (some [97]), .bulk (some [98])]), [58, 49, 13, 10], 113) := by rfl
+
+/-- an empty inline line yields a nil array (which `ParseArgs` rejects) -/
+example : decode [13, 10] 0 = .ok (.arr none, [], 2) ∧ parseArgs (.arr none) = .error .emptyArray := by
+  constructor <;> rfl
+
+/-! ### 4. Malformed input yields an error, never a value -/
+
+theorem isTypeByte_ne_lf {t : UInt8} (ht : isTypeByte t = true) : t ≠ 10 := by
+  intro h; subst h; simp [isTypeByte] at ht
+
+/-- Missing CR before the LF that ends a simple string, an error, an integer, a bulk length or an array length:
+rejected at any depth, after any number of keep-alive newlines. (`s` is the text of the line, LF-free, and does
+not end in CR.) -/
+theorem reject_missing_cr (fx : Bool) (f d k : Nat) (t : UInt8) (ht : isTypeByte t = true) (s rest : Bytes) (off : Nat)
+    (hs : (10 : UInt8) ∉ s) (hcr : ¬ ∃ b, s = b ++ [13]) :
+    decodeRespG fx (f + 1) d (List.replicate k 10 ++ t :: (s ++ 10 :: rest)) off = .error .crlf := by
+  rw [decodeRespG, decodeBody_type _ _ _ _ _ (isTypeByte_ne_lf ht)]
+  simp [isTypeByte] at ht
+  rcases ht with ((((h | h) | h) | h) | h) <;> subst h <;>
+    simp [decodeText_crlf _ _ _ hs hcr, decodeInt_crlf _ _ _ hs hcr, decodeBulkBytes]
+
+theorem reject_missing_cr_top (k : Nat) (t : UInt8) (ht : isTypeByte t = true) (s rest : Bytes) (off : Nat)
+    (hs : (10 : UInt8) ∉ s) (hcr : ¬ ∃ b, s = b ++ [13]) :
+    decode (List.replicate k 10 ++ t :: (s ++ 10 :: rest)) off = .error .crlf :=
+  reject_missing_cr true _ 0 k t ht s rest off hs hcr
+
+example : decode [43, 79, 75, 10] 0 = .error .crlf := by rfl                       -- "+OK\n"
+example : decode [36, 49, 10, 97, 13, 10] 0 = .error .crlf := by rfl               -- "$1\na\r\n"
+
+/-- the two bytes after a bulk payload must be CR LF -/
+theorem reject_bulk_terminator (fx : Bool) (f d k : Nat) (b : Bytes) (x y : UInt8) (rest : Bytes) (off : Nat)
+    (hb : b.length ≤ maxLen) (hxy : ¬ (x = 13 ∧ y = 10)) :
+    decodeRespG fx (f + 1) d (List.replicate k 10 ++ 36 :: (fmtInt b.length ++ crlf ++ (b ++ x :: y :: rest))) off
+      = .error .crlf := by
+  rw [decodeRespG, decodeBody_type _ _ _ _ _ (by decide)]
+  unfold maxLen at hb
+  have hi : isInt64 (b.length : Int) := by unfold isInt64; omega
+  have h1 : ¬ ((b.length : Int) < -1) := by omega
+  have h2 : ¬ ((b.length : Int) = -1) := by omega
+  have h3 : ¬ ((b.length : Int) + 2 > 9223372036854775807) := by omega
+  have h4 : ¬ ((b ++ x :: y :: rest).length < b.length + 2) := by simp
+  have t : List.take (b.length + 2) (b ++ x :: y :: rest) = b ++ [x, y] := by
+    have : b ++ x :: y :: rest = (b ++ [x, y]) ++ rest := by simp
+    rw [this]; exact List.take_left' (by simp)
+  simp only [show ¬ ((36 : UInt8) = 43) by decide, show ¬ ((36 : UInt8) = 45) by decide,
+    show ¬ ((36 : UInt8) = 58) by decide, ↓reduceIte, decodeBulkBytes, decodeInt_ok _ hi, h1, h2, h3, h4,
+    Int.toNat_natCast, t]
+  have hg : (b ++ [x, y]).getD b.length 0 ≠ 13 ∨ (b ++ [x, y]).getD (b.length + 1) 0 ≠ 10 := by
+    simp [List.getD_eq_getElem?_getD]
+    by_cases hx : x = 13
+    · right; intro hy; exact hxy ⟨hx, hy⟩
+    · left; exact hx
+  simp only [hg, ↓reduceIte]
+
+/-- a bulk length below −1 is rejected (any accepted integer text, e.g. `-2`, `-00002`, `-9223372036854775808`) -/
+theorem reject_bulk_len_below_minus_one (fx : Bool) (f d k : Nat) (s : Bytes) (n : Int) (rest : Bytes) (off : Nat)
+    (hp : parseInt s = some n) (hn : n < -1) :
+    decodeRespG fx (f + 1) d (List.replicate k 10 ++ 36 :: (s ++ crlf ++ rest)) off = .error .bytesLen := by
+  rw [decodeRespG, decodeBody_type _ _ _ _ _ (by decide)]
+  simp only [show ¬ ((36 : UInt8) = 43) by decide, show ¬ ((36 : UInt8) = 45) by decide,
+    show ¬ ((36 : UInt8) = 58) by decide, ↓reduceIte, decodeBulkBytes,
+    decodeInt_ok' s n (parseInt_some_noLF s n hp) hp, hn]
+
+/-- an array length below −1 is rejected -/
+theorem reject_array_len_below_minus_one (fx : Bool) (f d k : Nat) (s : Bytes) (n : Int) (rest : Bytes) (off : Nat)
+    (hp : parseInt s = some n) (hn : n < -1) :
+    decodeRespG fx (f + 1) d (List.replicate k 10 ++ 42 :: (s ++ crlf ++ rest)) off = .error .arrayLen := by
+  rw [decodeRespG, decodeBody_type _ _ _ _ _ (by decide)]
+  simp only [show ¬ ((42 : UInt8) = 43) by decide, show ¬ ((42 : UInt8) = 45) by decide,
+    show ¬ ((42 : UInt8) = 58) by decide, show ¬ ((42 : UInt8) = 36) by decide, ↓reduceIte,
+    decodeInt_ok' s n (parseInt_some_noLF s n hp) hp, hn]
+
+/-- instance: every rendered 64-bit integer below −1 -/
+theorem reject_len_below_minus_one (i : Int) (hi : isInt64 i) (hn : i < -1) (k : Nat) (rest : Bytes) (off : Nat) :
+    decode (List.replicate k 10 ++ 36 :: (fmtInt i ++ crlf ++ rest)) off = .error .bytesLen ∧
+    decode (List.replicate k 10 ++ 42 :: (fmtInt i ++ crlf ++ rest)) off = .error .arrayLen :=
+  ⟨reject_bulk_len_below_minus_one true _ 0 k _ i rest off (parseInt_fmtInt i hi) hn,
+   reject_array_len_below_minus_one true _ 0 k _ i rest off (parseInt_fmtInt i hi) hn⟩
+
+example : decode [36, 45, 50, 13, 10] 0 = .error .bytesLen := by rfl                -- "$-2\r\n"
+example : decode [42, 45, 50, 13, 10] 0 = .error .arrayLen := by rfl                -- "*-2\r\n"
+
+/-- a length (or integer) text that is not a 64-bit decimal integer is rejected — for `:`, `$` and `*` -/
+theorem reject_non_numeric (fx : Bool) (f d k : Nat) (t : UInt8) (ht : t = 58 ∨ t = 36 ∨ t = 42) (s rest : Bytes)
+    (off : Nat) (hs : (10 : UInt8) ∉ s) (hp : parseInt s = none) :
+    decodeRespG fx (f + 1) d (List.replicate k 10 ++ t :: (s ++ crlf ++ rest)) off = .error .badInt := by
+  rcases ht with h | h | h <;> subst h <;> rw [decodeRespG, decodeBody_type _ _ _ _ _ (by decide)] <;>
+    simp only [show ¬ ((58 : UInt8) = 43) by decide, show ¬ ((58 : UInt8) = 45) by decide,
+      show ¬ ((36 : UInt8) = 43) by decide, show ¬ ((36 : UInt8) = 45) by decide, show ¬ ((36 : UInt8) = 58) by decide,
+      show ¬ ((42 : UInt8) = 43) by decide, show ¬ ((42 : UInt8) = 45) by decide,
+      show ¬ ((42 : UInt8) = 58) by decide, show ¬ ((42 : UInt8) = 36) by decide, ↓reduceIte,
+      decodeBulkBytes, decodeInt_badInt s rest _ hs hp]
+
+/-- which texts are "non-numeric": anything but an optional sign followed by one or more digits … -/
+theorem non_numeric_of_bad_byte (s : Bytes) (b : UInt8) (hb : b ∈ s) (hd : isDigit b = false) (h1 : b ≠ 43) (h2 : b ≠ 45) :
+    parseInt s = none := by
+  cases hp : parseInt s with
+  | none => rfl
+  | some n =>
+    obtain ⟨c, t, e, hc, ht, _⟩ := parseInt_some_shape s n hp
+    subst e
+    simp at hb
+    rcases hb with hb | hb
+    · subst hb; rcases hc with hc | hc | hc
+      · rw [hc] at hd; cases hd
+      · exact absurd hc h1
+      · exact absurd hc h2
+    · rw [ht b hb] at hd; cases hd
+
+/-- … a sign anywhere but in front, the empty text and a bare sign included -/
+theorem non_numeric_of_inner_sign (c : UInt8) (t : Bytes) (b : UInt8) (hb : b ∈ t) (hd : isDigit b = false) :
+    parseInt (c :: t) = none := by
+  cases hp : parseInt (c :: t) with
+  | none => rfl
+  | some n =>
+    obtain ⟨c', t', e, _, ht, _⟩ := parseInt_some_shape _ n hp
+    simp at e
+    obtain ⟨_, rfl⟩ := e
+    rw [ht b hb] at hd; cases hd
+
+example : parseInt [] = none ∧ parseInt [45] = none ∧ parseInt [43] = none ∧ parseInt [49, 120] = none ∧
+    parseInt [57, 50, 50, 51, 51, 55, 50, 48, 51, 54, 56, 53, 52, 55, 55, 53, 56, 48, 56] = none := by
+  refine ⟨?_, ?_, ?_, ?_, ?_⟩ <;> rfl                          -- "", "-", "+", "1x", "9223372036854775808"
+example : decode [36, 120, 13, 10] 0 = .error .badInt := by rfl                        -- "$x\r\n"
+
+/-- An unknown type byte inside an array is rejected: after any `pre`fix of well-formed elements, where the array
+still expects another element, a byte that is neither LF nor one of `+ - : $ *` — at any depth, also at depth 0
+where the same byte would have started an inline command. -/
+theorem reject_unknown_type_in_array (fx : Bool) (d k : Nat) (pre : List Resp) (hwf : WFL pre = true) (n : Nat)
+    (hn : pre.length < n) (hmax : n ≤ maxLen) (t : UInt8) (ht : t ≠ 10) (htb : isTypeByte t = false) (tail : Bytes)
+    (off : Nat) (f : Nat) (hf : depthL pre + 2 ≤ f) :
+    decodeRespG fx f d (List.replicate k 10 ++ 42 :: (fmtInt n ++ crlf ++ (encL pre ++ t :: tail))) off
+      = .error .badType := by
+  obtain ⟨f', rfl⟩ : ∃ f', f = f' + 1 + 1 := ⟨f - 2, by omega⟩
+  obtain ⟨m, rfl⟩ : ∃ m, n = pre.length + (m + 1) := ⟨n - pre.length - 1, by omega⟩
+  unfold maxLen at hmax
+  have hi : isInt64 ((pre.length + (m + 1) : Nat) : Int) := by unfold isInt64; omega
+  have h1 : ¬ (((pre.length + (m + 1) : Nat) : Int) < -1) := by omega
+  have h2 : ¬ (((pre.length + (m + 1) : Nat) : Int) = -1) := by omega
+  rw [decodeRespG, decodeBody_type _ _ _ _ _ (by decide)]
+  simp only [show ¬ ((42 : UInt8) = 43) by decide, show ¬ ((42 : UInt8) = 45) by decide,
+    show ¬ ((42 : UInt8) = 58) by decide, show ¬ ((42 : UInt8) = 36) by decide, ↓reduceIte,
+    decodeInt_ok _ hi, h1, h2, Int.toNat_natCast,
+    decodeSeq_badType fx f' d t ht htb tail pre hwf (by omega) m]
+
+theorem reject_unknown_type_in_array_top (k : Nat) (pre : List Resp) (hwf : WFL pre = true) (n : Nat)
+    (hn : pre.length < n) (hmax : n ≤ maxLen) (t : UInt8) (ht : t ≠ 10) (htb : isTypeByte t = false) (tail : Bytes)
+    (off : Nat) :
+    decode (List.replicate k 10 ++ 42 :: (fmtInt n ++ crlf ++ (encL pre ++ t :: tail))) off = .error .badType := by
+  unfold decode
+  apply reject_unknown_type_in_array true 0 k pre hwf n hn hmax t ht htb tail off
+  have := depthL_le pre
+  have := fmtInt_ne_nil (n : Int)
+  have : 0 < (fmtInt (n : Int)).length := List.length_pos_iff.mpr this
+  simp [crlf]; omega
+
+example : decode [42, 49, 13, 10, 80, 73, 78, 71, 13, 10] 0 = .error .badType := by rfl   -- "*1\r\nPING\r\n"
+
+/-- Truncation: every strict prefix of the encoding of a well-formed value (after any keep-alive newlines) is
+rejected with EOF — never a value. -/
+theorem reject_truncated (v : Resp) (hwf : WF v = true) (p s : Bytes) (hs : s ≠ []) (h : p ++ s = enc v)
+    (k : Nat) (off : Nat) : decode (List.replicate k 10 ++ p) off = .error .eof := by
+  rcases prefixG true v hwf p s hs h _ 0 k off with h' | h'
+  · exact h'
+  · exact absurd h' (decode_ne_fuel _ _)
+
+/-- … inside arrays as well (any budget that is large enough, any depth) -/
+theorem reject_truncated_nested (fx : Bool) (v : Resp) (hwf : WF v = true) (p s : Bytes) (hs : s ≠ []) (h : p ++ s = enc v)
+    (d k : Nat) (off : Nat) :
+    decodeRespG fx ((List.replicate k 10 ++ p).length + 1) d (List.replicate k 10 ++ p) off = .error .eof := by
+  rcases prefixG fx v hwf p s hs h _ d k off with h' | h'
+  · exact h'
+  · exact absurd h' (decodeRespG_ne_fuel fx _ d _ off (by omega))
+
+example : decode [36, 53, 13, 10, 104, 101, 108, 108, 111, 13] 0 = .error .eof := by rfl   -- "$5\r\nhello\r"
+
+/-! ### 5. Integer text -/
+
+/-- `parseInt (fmtInt i) = i` for all 64-bit `i` (on the model of strconv) -/
+theorem int_text (i : Int) (h : isInt64 i) : parseInt (fmtInt i) = some i := parseInt_fmtInt i h
+
+/-- … and through the table-driven renderer the encoder really uses -/
+theorem int_text_itos (i : Int) (h : isInt64 i) : parseInt (itos i) = some i := by
+  rw [itos_spec i h]; exact parseInt_fmtInt i h
+
+/-- the decoder only ever produces 64-bit integers -/
+theorem parseInt_range (s : Bytes) (n : Int) (h : parseInt s = some n) : isInt64 n := by
+  unfold parseInt at h
+  split at h
+  · simp at h
+  · rename_i c t
+    dsimp only at h
+    split at h
+    · simp at h
+    · rename_i un _
+      unfold isInt64
+      by_cases hc : c = 45 <;> simp [hc] at h <;> omega
+
+/-! ### 6. Command extraction -/
+
+/-- `ParseArgs (ChangeArgsToResp cmd args)` returns the lower-cased command and the arguments unchanged
+(nil arguments stay nil) -/
+theorem parseArgs_changeArgs (cmd : Bytes) (hc : cmd ≠ []) (args : List (Option Bytes)) :
+    parseArgs (changeArgsToResp (some cmd) args) = .ok (cmd.map lowerByte, args) := by
+  unfold parseArgs changeArgsToResp
+  simp [asBulks, asBulks_map, hc]
+
+/-- an empty or nil command is refused -/
+theorem parseArgs_changeArgs_empty (args : List (Option Bytes)) :
+    parseArgs (changeArgsToResp none args) = .error .emptyCmd ∧
+    parseArgs (changeArgsToResp (some []) args) = .error .emptyCmd := by
+  unfold parseArgs changeArgsToResp
+  simp [asBulks, asBulks_map]
+
+/-- conversely, whatever `ParseArgs` accepts is an array of bulk strings, i.e. an image of `ChangeArgsToResp` -/
+theorem parseArgs_inv (r : Resp) (cmd : Bytes) (args : List (Option Bytes)) (h : parseArgs r = .ok (cmd, args)) :
+    ∃ c, r = changeArgsToResp c args ∧ cmd = (c.getD []).map lowerByte ∧ cmd ≠ [] := by
+  unfold parseArgs at h
+  split at h
+  · rename_i a
+    split at h
+    · simp at h
+    · rename_i items hne hitems
+      split at h
+      · simp at h
+      · simp at h
+      · rename_i c as hb
+        dsimp only at h
+        split at h
+        · simp at h
+        · rename_i hemp
+          simp at h
+          obtain ⟨h1, h2⟩ := h
+          subst h2
+          have hi := asBulks_inv _ _ hb
+          cases a with
+          | none => simp at hi
+          | some l =>
+            simp at hi
+            refine ⟨c, by simp [changeArgsToResp, hi], h1.symm, ?_⟩
+            rw [← h1]; simpa using hemp
+  · simp at h
+
+example : parseArgs (changeArgsToResp (some [83, 69, 84]) [some [107], none, some []])
+    = .ok ([115, 101, 116], [some [107], none, some []]) := by rfl
+
 end RSVerif.Properties.C10
